@@ -3,7 +3,8 @@
    a dispatch_async_f call onto the lane and in a drain of the lane, as the DISPATCH_VERIF hook reports them
    (src/shims/atomic.h): dq_state, dq_items_tail, dq_items_head, do_targetq of the lane, the do_next of the items and
    of the lane itself, and the tail exchange / link store of the push on the target root queue.
-   It follows SLane's program points one to one (PA_* for the submitter, PW_* for the drainer) and ADDS everything SLane
+   It follows SLane's program points one to one (PA_* for the submitter incl. the need_override continuation PA_oprobe /
+   PA_owake of a push onto a non-empty list, PW_* for the drainer) and ADDS everything SLane
    abstracts as "no shared effect": the initial relaxed load and the failed compare-exchanges of every
    os_atomic_rmw_loop, the spin of _dispatch_wait_for_enqueuer, the seq_cst load of dq_items_tail in
    _dispatch_queue_class_probe, the loads of _dispatch_queue_get_head / os_mpsc_get_next, the relaxed load of dq_state
@@ -97,10 +98,10 @@ Inductive tpc :=
 | TA_init (q : Z)                    (* PA_xchg: item->do_next = NULL comes first *)
 | TA_xchg (q item : Z)               (* PA_xchg: the tail exchange *)
 | TA_link (q item prev : Z)          (* PA_link *)
-| TA_linked (q : Z)                  (* list was not empty: return, or dx_wakeup(CONSUME_2) if need_override *)
-| TA_probe (q fl : Z)                (* PA_probe *)
-| TA_wake_load (q fl : Z)            (* PA_wake: initial load of the rmw loop *)
-| TA_wake_body (q fl old : Z)        (* PA_wake: one iteration on `old` *)
+| TA_linked (q : Z)                  (* PA_link false done: return (gstep), or PA_oprobe: dx_wakeup(CONSUME_2) if need_override (ostep) *)
+| TA_probe (q fl : Z)                (* PA_probe (PA_oprobe is observed from TA_linked) *)
+| TA_wake_load (q fl : Z)            (* PA_wake (fl = 3) / PA_owake (fl = 1): initial load of the rmw loop *)
+| TA_wake_body (q fl old : Z)        (* PA_wake / PA_owake: one iteration on `old` *)
 | TA_push_tq                         (* PA_rootpush: load do_targetq *)
 | TA_push_init                       (* PA_rootpush: lane->do_next = NULL *)
 | TA_push_xchg                       (* PA_rootpush: exchange of the root queue's tail *)
